@@ -1,5 +1,6 @@
 import Mkdb.Proofs.Tuple
 import Mkdb.Proofs.ColumnNames
+import Mkdb.Proofs.SessionInv10
 /-!
 # C08 — stored values read back exactly; invalid values are refused (row codec part)
 
@@ -66,3 +67,161 @@ theorem C08_distinct_names_hold_for_every_table (fields : List FieldDef)
   ((Mkdb.Store.checkFields_none_iff fields).mp h).2
 
 end Mkdb.Tuple
+
+namespace Mkdb.Store
+open Mkdb.Page Mkdb.Tuple Mkdb.Generated Mkdb.Tree
+
+/-! ### End to end: parsed statements, the page store, flush, eviction, restart
+
+`DbInv db sdb pt sch tbls` (Proofs/SessionInv3) is the invariant every statement of a session keeps
+(`C18_every_statement_keeps_the_database_invariant`; it holds of the database `CREATE DATABASE` leaves):
+the store abstracts to the plain in-memory database `sdb`.  `Reads db t cols vals` (Proofs/SessionInv8):
+`RelationService.Fetch` of the table `t` - the source of every SELECT; what the executor does with the
+rows is C05-C07 - returns the columns `cols` and rows holding exactly the values `vals`, in order.
+`ReadsDurably` (Proofs/SessionInv10): that is so now; after `Engine.flush` (every dirty page written to the
+data file); after the cache is dropped and the pages are read from the data file again (`reopen`:
+evicted and reloaded); after start-up recovery `Engine.recover` of the closed database (restart), with
+any page write orders, and the re-open that follows it.  Values are `Val`s - an integer, a byte string,
+a boolean, NULL -, so equality of values is equality bit for bit. -/
+
+/-- **C08.accepted_value_is_read_back** (the first sentence of C08, end to end over parsed statements).
+On a database that satisfies the invariant, let the plain model accept `INSERT INTO t (cols) VALUES rows`
+(`StmtRoom`: literals that fit their Go types, 64-level fuel, offsets below 2^63).  Then the engine model
+accepts it; the invariant holds again for the plain model's result; the table `t` of the plain
+database gets one new row per VALUES row, in order, and the `k`-th new row holds exactly the `k`-th
+VALUES row: without a column list the given values in column order; with a column list, at the position
+of every column the `i`-th given value if the column is the `i`-th name of the list, and NULL if the
+column is not named; and a reader (`Fetch`) sees the old rows followed by exactly these new rows - now,
+after the page has been written to disk, after it has been evicted and reloaded, and after restart. -/
+theorem C08_accepted_value_is_read_back (db : Engine.DB) (sdb : Spec.SDB) (pt sch : Levels)
+    (tbls : List (Bytes × Levels)) (h : DbInv db sdb pt sch tbls) (t : Bytes) (cols : List Bytes)
+    (rows : List (List Sql.Lit)) (hroom : StmtRoom db pt sch tbls (.insert t cols rows))
+    (sdb' : Spec.SDB) (hspec : Spec.specStmt sdb (.insert t cols rows) = some sdb') :
+    ∃ db' pt' sch' tbls' tb newRows,
+      evalStmt db [] (.insert t cols rows) = .ok () db' ∧ DbInv db' sdb' pt' sch' tbls' ∧
+      Spec.findTable sdb t = some tb ∧
+      (rows.map fun r => r.map Engine.litToVal).mapM (Spec.rowOf tb cols) = some newRows ∧
+      (∀ (k : Nat) (vals row : List Val), (rows.map fun r => r.map Engine.litToVal)[k]? = some vals →
+          newRows[k]? = some row →
+        (cols = [] → row = vals) ∧
+        (cols ≠ [] → row.length = tb.cols.length ∧
+          ∀ (j : Nat) (fd : FieldDef), tb.cols[j]? = some fd →
+            (∀ (i : Nat) (c : Bytes) (v : Val), cols[i]? = some c → vals[i]? = some v →
+              Spec.nameStr c = fd.name → row[j]? = some v) ∧
+            (fd.name ∉ cols.map Spec.nameStr → row[j]? = some Val.null))) ∧
+      ReadsDurably db' t tb.cols (tb.rows.map (·.vals) ++ newRows) :=
+  accepted_insert_read_back db sdb pt sch tbls h t cols rows hroom sdb' hspec
+
+/-- non-vacuity: `INSERT INTO t VALUES (5), (6)` on the database `CREATE DATABASE; CREATE TABLE t (a INT)`
+produces (computed by the model) meets every hypothesis -/
+example : DbInv tableDB sdbA0 ptT schT [(tname, tT)] ∧
+    StmtRoom tableDB ptT schT [(tname, tT)] (.insert tname [] [[.int 5], [.int 6]]) ∧
+    Spec.specStmt sdbA0 (.insert tname [] [[.int 5], [.int 6]]) = some sdbA1 :=
+  ⟨dbFlushed_tableDB.inv, room_insert56, rfl⟩
+
+/-- **C08.accepted_statement_is_read_back** (INSERT, UPDATE, DELETE, CREATE TABLE alike): whenever the
+plain model accepts a statement (`StmtRoom` as in `C01_every_statement_refines_plain_model`), the engine
+model accepts it, the invariant holds for the plain model's result `sdb'`, and every table of `sdb'` -
+for an UPDATE: the table with the SET values written into the selected rows, which is what `specUpdate`
+computes - is read back with its declared columns and exactly its rows, now and after flush, eviction and
+restart. -/
+theorem C08_accepted_statement_is_read_back (db : Engine.DB) (sdb : Spec.SDB) (pt sch : Levels)
+    (tbls : List (Bytes × Levels)) (h : DbInv db sdb pt sch tbls) (st : Sql.Stmt)
+    (hroom : StmtRoom db pt sch tbls st) (sdb' : Spec.SDB) (hspec : Spec.specStmt sdb st = some sdb') :
+    ∃ db' pt' sch' tbls', evalStmt db [] st = .ok () db' ∧ DbInv db' sdb' pt' sch' tbls' ∧
+      ∀ t tb, Spec.findTable sdb' t = some tb → ReadsDurably db' t tb.cols (tb.rows.map (·.vals)) := by
+  obtain ⟨db', pt', sch', tbls', e, hi'⟩ := h.accepted [] st hroom sdb' hspec
+  exact ⟨db', pt', sch', tbls', e, hi', fun t tb hf => hi'.reads_durably hf⟩
+
+/-- **C08.accepted_values_survive_a_crash** (the restart WITHOUT a close; C02 carried to the reader): from
+a checkpointed database (`Ckpt`: what every flush and every recovery leave, `C02_rounds_*`) run any
+INSERT / UPDATE / DELETE statements the plain model accepts (`SpecRun`); then the machine crashes with
+nothing flushed since the checkpoint.  Start-up recovery succeeds, and every table of the plain database
+of ALL acknowledged statements is read back with exactly its rows.  (`Ckpt` carries the side conditions
+`PtSelf` / `FreshM` of the replay theorems, `DESIGN.md` 11.10.) -/
+theorem C08_accepted_values_survive_a_crash {sch : Levels} {db dbN : Engine.DB} {sdb sdbN : Spec.SDB}
+    {stmts : List EStmt} {pt : Levels} {tbls : List (Bytes × Levels)} (h : Ckpt sch db sdb pt tbls)
+    (run : SpecRun sch db sdb stmts dbN sdbN) (o1 o2 : List Nat) :
+    ∃ db', Engine.recover dbN o1 o2 = .ok db' ∧
+      ∀ t tb, Spec.findTable sdbN t = some tb → Reads db' t tb.cols (tb.rows.map (·.vals)) := by
+  obtain ⟨db', ptN, tblsN, e, _, hk⟩ := h.recover_round run o1 o2
+  exact ⟨db', e, fun t tb hf => hk.abs.reads hf⟩
+
+/-- non-vacuity: `real_rounds_example` (Proofs/BaseCase2) is such a run from the checkpointed database
+`CREATE DATABASE; CREATE TABLE t (a INT)` leaves -/
+example : Ckpt schT tableDB sdbA0 ptT [(tname, tT)] := ckpt_tableDB
+
+/-- **C08.row_refused_iff**: the plain model refuses a row (`Spec.rowOf … = none`) exactly when the number
+of values is not the number of (named) columns, or some column would get a non-NULL value that its type
+does not admit - `C08_refuse_kind`: a value of the wrong kind, an INT outside 32 bits -, or the encoded
+row exceeds the 400-byte limit. -/
+theorem C08_row_refused_iff (tb : Spec.STable) (cols : List Bytes) (vals : List Val) :
+    Spec.rowOf tb cols vals = none ↔
+      (colsOf tb.cols (cols.map Engine.bytesToName)).length ≠ vals.length ∨
+      (∃ fd ∈ tb.cols, get ((colsOf tb.cols (cols.map Engine.bytesToName)).zip vals).reverse fd.name ≠ .null ∧
+        validate fd (get ((colsOf tb.cols (cols.map Engine.bytesToName)).zip vals).reverse fd.name) ≠ .ok ()) ∨
+      ∃ buf, encodeTuple tb.cols ((colsOf tb.cols (cols.map Engine.bytesToName)).zip vals).reverse = .ok buf ∧
+        buf.length > c_maxValueSize := by
+  rw [specRowOf_none_iff]
+  refine or_congr Iff.rfl (or_congr ?_ Iff.rfl)
+  have hacc := C08_accept_iff tb.cols ((colsOf tb.cols (cols.map Engine.bytesToName)).zip vals).reverse
+  constructor
+  · rintro ⟨e, he⟩
+    apply Classical.byContradiction
+    intro hno
+    have : ∃ bs, encodeTuple tb.cols ((colsOf tb.cols (cols.map Engine.bytesToName)).zip vals).reverse = .ok bs := by
+      rw [hacc]
+      intro fd hfd
+      apply Classical.byContradiction
+      intro hboth
+      simp only [not_or] at hboth
+      exact hno ⟨fd, hfd, hboth.1, hboth.2⟩
+    obtain ⟨bs, hbs⟩ := this
+    rw [he] at hbs
+    cases hbs
+  · rintro ⟨fd, hfd, h1, h2⟩
+    cases henc : encodeTuple tb.cols ((colsOf tb.cols (cols.map Engine.bytesToName)).zip vals).reverse with
+    | error e => exact ⟨e, rfl⟩
+    | ok bs =>
+      have := hacc.mp ⟨bs, henc⟩ fd hfd
+      rcases this with h | h
+      · exact absurd h h1
+      · exact absurd h h2
+
+/-- **C08.refused_value_is_not_stored** (the second sentence of C08).  On a database that satisfies the
+invariant, an INSERT whose first row the plain model refuses (`C08_row_refused_iff`: wrong number of
+values, a value of the wrong type, an INT outside 32 bits, an encoding over the 400-byte limit) is
+refused by the plain model and by the engine model with an error value; the log is untouched; the
+invariant holds with THE SAME plain database and the same catalog trees; and the table is read back
+exactly as before - no row added, none altered, nothing truncated - now and after flush, eviction and
+restart.  (A later row refused after accepted ones: the rows BEFORE it stay applied - the known finding of
+C14, `C14_insert_kth_row_plain_model`; the refused row itself is not stored there either, and the
+invariant survives: `C18_every_statement_keeps_the_database_invariant`.) -/
+theorem C08_refused_value_is_not_stored (db : Engine.DB) (sdb : Spec.SDB) (pt sch : Levels)
+    (tbls : List (Bytes × Levels)) (h : DbInv db sdb pt sch tbls) (t : Bytes) (cols : List Bytes)
+    (r : List Sql.Lit) (rest : List (List Sql.Lit)) (tb : Spec.STable) (hfind : Spec.findTable sdb t = some tb)
+    (hbad : Spec.rowOf tb cols (r.map Engine.litToVal) = none) :
+    Spec.specStmt sdb (.insert t cols (r :: rest)) = none ∧
+    ∃ e db', evalStmt db [] (.insert t cols (r :: rest)) = .err e db' ∧ db'.wal = db.wal ∧
+      DbInv db' sdb pt sch tbls ∧ ReadsDurably db' t tb.cols (tb.rows.map (·.vals)) :=
+  refused_insert_not_stored db sdb pt sch tbls h t cols r rest tb hfind hbad
+
+/-- **C08.refused_statement_is_not_stored**: the same for every statement refused before a change
+(`StmtRefusal`, the list of `C14_refused_statement_plain_model`: also an UPDATE whose first selected row
+cannot be rewritten - wrong type, INT out of range, over the size limit): error value, log untouched,
+the same plain database, every table read back as before, durably. -/
+theorem C08_refused_statement_is_not_stored (db : Engine.DB) (sdb : Spec.SDB) (pt sch : Levels)
+    (tbls : List (Bytes × Levels)) (h : DbInv db sdb pt sch tbls) (st : Sql.Stmt) (hbad : StmtRefusal sdb pt st) :
+    Spec.specStmt sdb st = none ∧
+    ∃ e db', evalStmt db [] st = .err e db' ∧ db'.wal = db.wal ∧ DbInv db' sdb pt sch tbls ∧
+      ∀ t tb, Spec.findTable sdb t = some tb → ReadsDurably db' t tb.cols (tb.rows.map (·.vals)) := by
+  obtain ⟨hnone, e, db', he, hw, hi'⟩ := h.refused [] st hbad
+  exact ⟨hnone, e, db', he, hw, hi', fun t tb hf => hi'.reads_durably hf⟩
+
+/-- non-vacuity: `INSERT INTO t VALUES (2147483648)` on the same database: the plain model refuses the
+row (an INT outside 32 bits) -/
+example : Spec.findTable sdbA0 tname = some ⟨tname, schemaA, []⟩ ∧
+    Spec.rowOf ⟨tname, schemaA, []⟩ [] ([Sql.Lit.int 2147483648].map Engine.litToVal) = none :=
+  ⟨rfl, rfl⟩
+
+end Mkdb.Store
